@@ -1,6 +1,152 @@
 package engine
 
-// LoadConsts evaluates package-level values the verified code reads (see constdump).
+import (
+	"bytes"
+	"encoding/json"
+	"fmt"
+	"go/types"
+	"os"
+	"os/exec"
+	"path/filepath"
+	"sort"
+	"strings"
+)
+
+// LoadConsts evaluates, from the real package initialisers of the current working tree, the values of
+// package-level *big.Int and integer variables of every cadence package that has a contract file.
+// A helper file is added to each such package through a build overlay (nothing is written into /repo),
+// a tiny main program prints the values, and the verifier uses them as the values of those globals.
 func (p *Program) LoadConsts() error {
+	type gv struct {
+		pkg, name string
+		big      bool
+	}
+	byPkg := map[string][]gv{}
+	var pkgPaths []string
+	wantPkg := map[string]bool{}
+	for _, f := range p.CS.Files {
+		if !strings.HasSuffix(f, "zz_verif_contracts.go") {
+			continue
+		}
+		rel, _ := filepath.Rel(p.Repo, filepath.Dir(f))
+		pp := cadenceMod
+		if rel != "." {
+			pp += "/" + filepath.ToSlash(rel)
+		}
+		wantPkg[pp] = true
+	}
+	// sema constants are read by interpreter code
+	for _, extra := range []string{cadenceMod + "/sema", cadenceMod + "/fixedpoint", cadenceMod + "/values", cadenceMod + "/common"} {
+		wantPkg[extra] = true
+	}
+	pkgName := map[string]string{}
+	for _, sp := range p.Prog.AllPackages() {
+		pp := sp.Pkg.Path()
+		if !wantPkg[pp] {
+			continue
+		}
+		pkgName[pp] = sp.Pkg.Name()
+		scope := sp.Pkg.Scope()
+		for _, n := range scope.Names() {
+			v, ok := scope.Lookup(n).(*types.Var)
+			if !ok || n == "_" {
+				continue
+			}
+			if isBigIntPtr(v.Type()) {
+				byPkg[pp] = append(byPkg[pp], gv{pp, n, true})
+			} else if _, _, isInt := intInfo(v.Type()); isInt {
+				byPkg[pp] = append(byPkg[pp], gv{pp, n, false})
+			}
+		}
+		if len(byPkg[pp]) > 0 {
+			pkgPaths = append(pkgPaths, pp)
+		}
+	}
+	sort.Strings(pkgPaths)
+	if len(pkgPaths) == 0 {
+		return nil
+	}
+	work := filepath.Join(VerifDir, ".work", "constdump")
+	os.MkdirAll(work, 0o755)
+	overlay := map[string]string{}
+	var mainSrc bytes.Buffer
+	mainSrc.WriteString("package main\n\nimport (\n\t\"fmt\"\n")
+	for i, pp := range pkgPaths {
+		fmt.Fprintf(&mainSrc, "\tp%d %q\n", i, pp)
+	}
+	mainSrc.WriteString(")\n\nfunc main() {\n\temit := func(n, v string) { fmt.Printf(\"%s\\t%s\\n\", n, v) }\n")
+	for i, pp := range pkgPaths {
+		fmt.Fprintf(&mainSrc, "\tp%d.VerifDumpConsts(emit)\n", i)
+		var src bytes.Buffer
+		fmt.Fprintf(&src, "package %s\n\nimport (\n\tverifFmt \"fmt\"\n\tverifBig \"math/big\"\n)\n\nvar _ = verifFmt.Sprint\nvar _ *verifBig.Int\n\n", pkgName[pp])
+		src.WriteString("func VerifDumpConsts(emit func(name, val string)) {\n")
+		src.WriteString("\tb := func(x *verifBig.Int) string { if x == nil { return \"nil\" }; return x.String() }\n\t_ = b\n")
+		for _, g := range byPkg[pp] {
+			if g.big {
+				fmt.Fprintf(&src, "\temit(%q, b(%s))\n", pp+"."+g.name, g.name)
+			} else {
+				fmt.Fprintf(&src, "\temit(%q, verifFmt.Sprint(%s))\n", pp+"."+g.name, g.name)
+			}
+		}
+		src.WriteString("}\n")
+		rel := strings.TrimPrefix(strings.TrimPrefix(pp, cadenceMod), "/")
+		gen := filepath.Join(work, fmt.Sprintf("dump_%d.go", i))
+		if err := os.WriteFile(gen, src.Bytes(), 0o644); err != nil {
+			return err
+		}
+		overlay[filepath.Join(p.Repo, rel, "zz_verif_dump.go")] = gen
+	}
+	mainSrc.WriteString("}\n")
+	mainFile := filepath.Join(work, "main.go")
+	if err := os.WriteFile(mainFile, mainSrc.Bytes(), 0o644); err != nil {
+		return err
+	}
+	overlay[filepath.Join(p.Repo, "cmd", "zz_verif_constdump", "main.go")] = mainFile
+	ovJSON, _ := json.Marshal(map[string]any{"Replace": overlay})
+	ovFile := filepath.Join(work, "overlay.json")
+	if err := os.WriteFile(ovFile, ovJSON, 0o644); err != nil {
+		return err
+	}
+	bin := filepath.Join(work, "constdump.bin")
+	cmd := exec.Command("go", "build", "-overlay", ovFile, "-o", bin, "./cmd/zz_verif_constdump")
+	cmd.Dir = p.Repo
+	cmd.Env = append(os.Environ(), "GOFLAGS=-mod=mod", "GOPROXY=off")
+	if out, err := cmd.CombinedOutput(); err != nil {
+		return fmt.Errorf("constdump build: %v\n%s", err, out)
+	}
+	out, err := exec.Command(bin).Output()
+	if err != nil {
+		return fmt.Errorf("constdump run: %v", err)
+	}
+	nextID := 1000001
+	var names []string
+	vals := map[string]string{}
+	for _, l := range strings.Split(strings.TrimSpace(string(out)), "\n") {
+		f := strings.SplitN(l, "\t", 2)
+		if len(f) != 2 {
+			continue
+		}
+		names = append(names, f[0])
+		vals[f[0]] = f[1]
+	}
+	sort.Strings(names)
+	bigSet := map[string]bool{}
+	for _, gs := range byPkg {
+		for _, g := range gs {
+			if g.big {
+				bigSet[g.pkg+"."+g.name] = true
+			}
+		}
+	}
+	for _, n := range names {
+		if bigSet[n] {
+			if vals[n] == "nil" {
+				continue
+			}
+			p.BigGlobals[n] = nextID
+			nextID++
+		}
+		p.Consts[n] = vals[n]
+	}
 	return nil
 }
